@@ -376,6 +376,15 @@ def programs(c, vsrc, prelude=""):
            ("named-constraint", prelude + "constraint cn = %s;\nlet v :: cn = %s;\n" % (ct, vsrc))]
     if c[0] == "ex":
         out.append(("let-bound-exemplar", prelude + "let shape = %s;\nlet v :: shape = %s;\n" % (ct, vsrc)))
+    if c[0] == "alt" and len(c[1]) >= 2:
+        # part of the alternation behind a name of its own, used as one arm of the rest (a lone literal is not named:
+        # on its own it would be an exemplar, which is a different constraint)
+        k = 1 if c[1][0][0] == "range" else (2 if len(c[1]) >= 3 else 0)
+        if k:
+            named, rest = ("alt", c[1][:k]) if k > 1 else c[1][0], ("alt", c[1][k:])
+            out.append(("named-constraint-as-arm", prelude + "constraint part = %s;\nlet v :: part | %s = %s;\n" % (ctext(named), ctext(rest), vsrc)))
+            out.append(("named-constraint-as-arm-of-named", prelude + "constraint part = %s;\nconstraint cn = %s | part;\nlet v :: cn = %s;\n"
+                        % (ctext(named), ctext(rest), vsrc)))
     return out
 
 
